@@ -78,6 +78,20 @@ fn main() {
                 return;
             }
         } }
+        // long inputs at machine-width boundaries (a cell type narrower than usize, e.g. u8, shows only at >= 256 edits):
+        // runs of one symbol against runs of another / of the same symbol, and a periodic pattern
+        let lens = [0usize, 1, 2, 127, 128, 129, 255, 256, 257, 300, 513];
+        for &la in &lens { for &lb in &lens {
+            for pat in 0..3 {
+                let a: Vec<u16> = (0..la).map(|i| if pat == 2 { 5 + (i % 3) as u16 } else { 5 }).collect();
+                let b: Vec<u16> = (0..lb).map(|i| match pat { 0 => 6, 1 => 5, _ => 5 + (i % 2) as u16 }).collect();
+                n += 1;
+                if let Some(why) = violation(&a, &b) {
+                    println!("WITNESS {{\"act\":{:?},\"exp\":{:?},\"why\":\"{}\"}}", a, b, why);
+                    return;
+                }
+            }
+        } }
         println!("NONE cases={}", n);
     } else {
         let a = parse_list(&args[2], "act");
